@@ -63,11 +63,11 @@ InvGrid == s # <<>> =>
     \* whole line band (thorough), the frontier band for the others; the theorem below covers the whole range
     \E dops \in {IF dl \in {0 - 1, 0, 1, P.lbase} \/ (~BandOnly /\ dl \in LineBand(P)) THEN 0..MaxDop ELSE Band(P, dl)} :
     /\ ParamsOk(P)
-    /\ (~SelectOverflow(P, dl) => \A dop \in 0..MaxDop : SelectCorrect(P, dl, dop))
-    /\ (dl \in LineBand(P) /\ ~SelectOverflow(P, dl) =>
+    /\ (\A dop \in 0..MaxDop : SelectCorrect(P, dl, dop))
+    /\ (dl \in LineBand(P) =>
            \A dop \in Band(P, dl) : \A o \in {0, P.maxops - 1} : SelectRefines(P, dl, dop, o))
     /\ PrintT(<<"CASE", ToJson([sys |-> "grid", P |-> P, dline |-> dl, L0 |-> L0, base |-> BaseAddr,
-                                ovf |-> SelectOverflow(P, dl), pre |-> GridPre(P), post |-> << <<"E", 0>> >>,
+                                pre |-> GridPre(P), post |-> << <<"E", 0>> >>,
                                 dops |-> [d \in dops |-> GridPoint(P, dl, d)]])>>)
 
 (*------------------------------------------------------------------------*)
@@ -111,13 +111,11 @@ SameRows(a, b) == Len(a) = Len(b) /\ \A k \in 1..Len(a) :
                      IF RowEs(b[k]) THEN RowEs(a[k]) /\ a[k][1] = b[k][1] /\ a[k][2] = b[k][2] ELSE a[k] = b[k]
 InvScript ==
     \E P \in {PT[t]} : \E B \in {s.B} :
-    \E D \in {StdRun(HeaderOf(P), AsList([k \in 1..Len(B.ins) |-> IF B.ins[k][1] = "S" /\ B.ins[k][2] > 255 THEN <<"Y", 0>> ELSE B.ins[k]]))} :
-    \E ovf \in {\E k \in 1..Len(B.ins) : B.ins[k][1] = "S" /\ B.ins[k][2] > 255} :
-    \E modelok \in {~ovf /\ D.wf /\ SameRows(D.rows, RowsOfMeaning(B.rows))} :
-    /\ (modelok \/ ovf \/ B.opireset \/ PrintT(<<"MODELDIFF", ToJson(s.calls), D.rows, RowsOfMeaning(B.rows)>>))
+    \E D \in {StdRun(HeaderOf(P), AsList(B.ins))} :
+    \E modelok \in {D.wf /\ SameRows(D.rows, RowsOfMeaning(B.rows))} :
+    /\ (modelok \/ PrintT(<<"MODELDIFF", ToJson(s.calls), D.rows, RowsOfMeaning(B.rows)>>))
     /\ PrintT(<<"CASE", ToJson([sys |-> "script", P |-> P, calls |-> s.calls,
-                                exp |-> [rows |-> RowsOfMeaning(B.rows), ins |-> B.ins, modelok |-> modelok, ovf |-> ovf,
-                                         opireset |-> B.opireset]])>>)
+                                exp |-> [rows |-> RowsOfMeaning(B.rows), ins |-> B.ins, modelok |-> modelok]])>>)
 
 (*------------------------------------------------------------------------*)
 (* files: s = [sf, fl, dirs, dids, files, calls].  The harness starts every *)
